@@ -184,7 +184,8 @@ inline int64_t clamp_finite(i128 v) { if(v > RAW_MAX) return RAW_MAX; if(v < RAW
 
 // integer type descriptors for the eight integral operand types
 struct IntType { const char * tag; bool is_signed; int bits; i128 lo, hi; };
-extern const IntType INT_TYPES[8];
+static const int N_INT = 10; // int8..int64, uint8..uint64, long long, unsigned long long
+extern const IntType INT_TYPES[N_INT];
 // value of the wrapper argument interpreted as type t (what static_cast<T>(int64) yields), as exact integer
 inline i128 int_value(const IntType & t, int64_t x)
   {
